@@ -167,6 +167,15 @@ def run(ctx):
                         continue
                     nlist += 1
                     okm = nm in ("push_back", "emplace_back", "clear")
+                    if not okm and nm == "swap" and f.name == "check" and len(n.get("args", [])) == 1:
+                        # the environment list is collected in a local first and committed in one step (R03.1: only where nothing was given, so the
+                        # member is empty): the local itself is append-only, so the order of the pieces is the order they were cut in
+                        a0 = ir.unwrap(n["args"][0])
+                        if isinstance(a0, dict) and a0.get("k") == "ref" and str(a0.get("decl", "")).startswith("local:"):
+                            lname = a0["decl"][6:]
+                            mods = [short(m.get("name") or "") for _, _, e2 in f.roots() for m in walk(e2["expr"], into_sc=False)
+                                    if isinstance(m, dict) and m.get("k") == "call" and m.get("this") is not None and fmt(ir.unwrap(m["this"])) == lname and not is_const_method_id(m.get("callee") or "")]
+                            okm = bool(mods) and all(x in ("push_back", "emplace_back", "reserve") for x in mods)
                     ctx.check(okm, "R02.2", f, "append-only:%s:%s" % (target, nm), "%s is modified with %s() on the parse path: values no longer keep command-line order" % (target, nm), (f, n.get("ln")))
             # whole-list algorithms applied to the lists
             for bid, i, e in f.roots():
